@@ -80,6 +80,15 @@ pub fn err_class(code: &str, _message: &str) -> &'static str {
     }
 }
 
+/// the row text in which a quoted id means "this row refers to that element"
+fn reference_text(full: &str) -> String {
+    if !full.contains("\"supersede") { return full.to_string(); }
+    match serde_json::from_str::<Value>(full) {
+        Ok(Value::Object(mut m)) => { m.remove("supersedes"); m.remove("superseded_by"); Value::Object(m).to_string() }
+        _ => full.to_string(),
+    }
+}
+
 /// `retention.retention_class` = "r<k>" as the code k (0 = no retention block)
 fn ret_code(retention: &Value) -> u32 {
     retention.get("retention_class").and_then(|v| v.as_str()).map(code_of).unwrap_or(0)
@@ -352,7 +361,9 @@ impl World {
             let quoted = format!("\"{}\"", real_id(id));
             // (an `asserted_by` given as a plain id string is a literal actor name, not a reference)
             let literal_actor = format!("\"asserted_by\":{quoted}");
-            let referenced = raw.elems.iter().any(|(j, o)| j != id && o.full.replace(&literal_actor, "").contains(&quoted));
+            // (`supersedes` / `superseded_by` of an Assertion are lineage, not references: `Element::references`
+            // does not list them, so PURGE under deny_if_referenced ignores them; `corrects` / `corrected_by` count)
+            let referenced = raw.elems.iter().any(|(j, o)| j != id && reference_text(&o.full).replace(&literal_actor, "").contains(&quoted));
             if e.state == "purged" {
                 // an identity stub: nothing a later clause should pick as a target
                 continue;
